@@ -284,14 +284,14 @@ func (c *durableCodec) DecodeTo(d *binary.Decoder, rv reflect.Value) (err error)
 	}
 
 	out.db.Update(func(tx *buntdb.Tx) error {
-		for i := 0; i < int(size); i++ {
-			k, err := d.ReadSlice()
+		for i := uint64(0); i < size; i++ {
+			k, err := readSlice(d)
 			if err != nil {
 				return nil
 			}
 
-			v, err := d.ReadSlice()
-			if err != nil {
+			v, err := readSlice(d)
+			if err != nil || len(v) < 16 {
 				return nil
 			}
 
